@@ -74,9 +74,16 @@ func c02Case(t listTemplate, decs []chunk, blank bool, hist []editOp) (sig, what
 	}
 	var f *dst.File
 	var err error
+	viaAst := false
 	libNames := simple.New(map[string]string{"example.com/lib": "lib"})
 	if t.Qualified {
 		f, err = decorator.NewDecoratorWithImports(token.NewFileSet(), "example.com/p", goast.WithResolver(libNames)).Parse(src)
+	} else if viaAst = len(src)%5 == 1 && !blank && noHanging(decs); viaAst {
+		// every fifth source goes through the library twice before it is edited: decorated, restored to
+		// an *ast.File, and that file decorated again (lists separated by line breaks only, no comments
+		// hanging at the end of a body: empty lines and comment columns do not survive the restorer's
+		// position space)
+		f, err = c02ViaRestoredAst(src)
 	} else if len(src)%5 == 0 {
 		// every fifth source is decorated as one file of a directory (ParseDir): the other files hold
 		// raw strings and block comments that span the line numbers of the lists
@@ -163,6 +170,11 @@ func c02Case(t listTemplate, decs []chunk, blank bool, hist []editOp) (sig, what
 	}
 	if xbuf.String() != got {
 		return "list-edit-extras-text-differs", fmt.Sprintf("%s: after %s the tree prints\n%s\nbut with Restorer.Extras = true\n%s", t.Name, histString(hist), got, xbuf.String()), true
+	}
+	if viaAst {
+		// empty lines do not survive the restorer's position space (known, outside every property): the
+		// comparison is about which comment stands with which element
+		got, want = noBlankLines(got), noBlankLines(want)
 	}
 	if got != want {
 		return "list-edit-text-differs", fmt.Sprintf("%s: after %s the tree prints\n%s\nbut the chunk-edited source formats to\n%s", t.Name, histString(hist), got, want), true
@@ -343,4 +355,37 @@ func c02ParseInDir(src string) (*dst.File, error) {
 		}
 	}
 	return nil, fmt.Errorf("m.go not found")
+}
+
+// c02ViaRestoredAst decorates src, restores it and decorates the restorer's *ast.File again.
+func c02ViaRestoredAst(src string) (*dst.File, error) {
+	f1, err := decorator.Parse(src)
+	if err != nil {
+		return nil, err
+	}
+	r := decorator.NewRestorer()
+	af, err := r.RestoreFile(f1)
+	if err != nil {
+		return nil, err
+	}
+	return decorator.NewDecorator(r.Fset).DecorateFile(af)
+}
+
+func noBlankLines(s string) string {
+	var out []string
+	for _, l := range strings.Split(s, "\n") {
+		if strings.TrimSpace(l) != "" {
+			out = append(out, l)
+		}
+	}
+	return strings.Join(out, "\n")
+}
+
+func noHanging(decs []chunk) bool {
+	for _, d := range decs {
+		if d.Hang > 0 {
+			return false
+		}
+	}
+	return true
 }
